@@ -131,6 +131,40 @@ def parse_tex(tex):
     return D
 
 
+def frame_of(backend, doc):
+    """Document frame and tick decorations (spec/Frame.tla), best effort: a document that no longer has this shape gives ok = 0
+    (specification drift, never a verdict)."""
+    try:
+        if backend == "svg":
+            root = ET.fromstring(doc)
+            outer = root[0]
+            main = [g for g in root.iter("g") if g.get("class") == "main-layer"][0]
+            otr, mtr = parse_translate(outer.get("transform")), parse_translate(main.get("transform"))
+            ticks = []
+            for g in main.iter("g"):
+                if g.get("class") == "tick":
+                    ln, tx = g.find("line"), g.find("text")
+                    m = re.search(r"text-anchor:\s*(\w+)", tx.get("style") or "")
+                    ticks.append({"x2": sval(ln.get("x2")), "y2": sval(ln.get("y2")), "tx": sval(tx.get("x")), "ty": sval(tx.get("y")),
+                                  "anchor": m.group(1) if m else ""})
+            fr = {"ok": 1, "w5": sval(root.get("width")), "h5": sval(root.get("height")), "outer": [sval(otr[0]), sval(otr[1])],
+                  "main": [sval(mtr[0]), sval(mtr[1])]}
+        else:
+            mb = re.search(r"border=\{" + NUM + "bp " + NUM + "bp " + NUM + "bp " + NUM + r"bp\}", doc)
+            mo = re.search(r"% shift for the margin\n\\begin\{scope\}\[shift=\{\((-?\d+), (-?\d+)\)\}\]", doc)
+            mm = re.search(r"% main layer\n\\begin\{scope\}\[shift=\{\((-?\d+), (-?\d+)\)\}\]", doc)
+            ticks = [{"to": t[0], "anchor": t[1]} for t in
+                     re.findall(r"\\draw\[[^\]]*\] \([^)]*\) -- \(([^)]*)\)\nnode\[anchor=(\w+)\]", doc)]
+            fr = {"ok": 1, "border": [sval(mb.group(k)) for k in range(1, 5)], "outer": [sval(mo.group(1)), sval(mo.group(2))],
+                  "main": [sval(mm.group(1)), sval(mm.group(2))]}
+        fr["nticks"] = len(ticks)
+        fr["uniform"] = 1 if all(t == ticks[0] for t in ticks) else 0
+        fr["tick"] = ticks[0] if ticks else ({"x2": 0, "y2": 0, "tx": 0, "ty": 0, "anchor": ""} if backend == "svg" else {"to": "", "anchor": ""})
+        return fr
+    except Exception:
+        return {"ok": 0}
+
+
 # ------------------------------------------------------------------ datasets
 TEXT_POOL = ["alpha", "Beta <b>", "x & y", "\"quoted\"", "naïve", "日本", "a'b", "émile", "tick>tock", "co-op", "Ω mega", "plain text"]
 COLORS = ["#222", "#1f77b4", "#ABC", "#a1B2c3", "fff", "0f0f0f"]
@@ -343,6 +377,9 @@ def drawing_record(backend, tl, doc, opts, data, kind):
             except ValueError:
                 t["textv3"] = -(10 ** 9)
     rec["sha"] = hashlib.sha256(doc.encode("utf-8")).hexdigest()
+    rec["opt"] = {"ml": mg["left"], "mr": mg["right"], "mt": mg["top"], "mb": mg["bottom"], "iw": opts["initialWidth"],
+                  "ih": opts["initialHeight"], "dot5": q5(opts["dotRadius"])}
+    rec["frame"] = frame_of(backend, doc)
     return rec
 
 
